@@ -49,6 +49,14 @@ func (e *Evidence) addConfig(c *Ctx, res *propResult) {
 	e.Coverage["discharged"] = nd
 	e.Coverage["checker_cmd"] = "bin/icecheck -property " + p.ID + " -tier " + e.Tier
 	e.Coverage["trusted_base"] = trustedBase
+	if len(c.NameNotes) > 0 {
+		e.Coverage["name_normalisation"] = map[string]interface{}{
+			"what":    "unexported names that differ from the reference names (golden/names.json) were alpha-renamed in a scratch copy before analysis; positions still refer to the original files",
+			"renames": c.NameNotes,
+		}
+	} else {
+		e.Coverage["name_normalisation"] = "no renaming needed: every reference name the rules anchor on exists in the tree"
+	}
 	e.Coverage["rules"] = res.perRule
 	e.Coverage["rule"] = "one obligation per rule instance (call site, store, function, struct field, path); key = rule + enclosing function + construct, never a line number; undecided counts as failure; a rule matching fewer instances than its floor fails as vacuous"
 	e.Coverage["evaluations"] = len(res.all)
